@@ -542,11 +542,108 @@ def c01(tier):
     return qs
 
 
+PROD_TUS = ["parser.c", "value.c", "map.c", "packet.c", "utils.c"]
+PROD_REMOVE = [("parser.c", "__CPROVER_file_local_parser_c_next_token"), ("parser.c", "__CPROVER_file_local_parser_c_parse_value")]
+
+
+def prod_query(name, script, extra_defs, note, tier):
+    d = {"SCRIPT": '"%s"' % script, "ENTRY_SKIP": 0, "MAXFRAMEDEPTH": 1}
+    d.update(extra_defs)
+    n = len(script)
+    return Q(name, "h15_prod.c", defs=d, extra=ICU_NORM_CHEAP, libtus=PROD_TUS, remove=PROD_REMOVE, unwind=n + 4,
+             unwindset=VAL_REC + ["harness.*:%d" % (13 * (n + 3)), "__CPROVER_file_local_parser_c_parse_container:3", "memset.*:2000", "memcmp.*:8", "in_zone.*:10", "require.*:10"],
+             mode="func", replay=False, object_bits=11, timeout=600 if tier == "quick" else 1800, mem_gb=8,
+             bounds={"token script": script, "handler program": "symbolic answer per callback site" if "EXPECT_ERRS" not in extra_defs else "all continue",
+                     "entry skip depth": d["ENTRY_SKIP"], "store": "recording; syntax-only mode symbolic"},
+             note=note)
+
+
+WELLFORMED = ["NV", "NVNV", "LNVV", "LNNVVVV", "NVLNV", "HNVSNV"]
+DEFECTS = [("missing_value", "N", {"EXPECT_ERRS": "133", "EXPECT_SET": 1}), ("missing_value2", "NNV", {"EXPECT_ERRS": "133", "EXPECT_SET": 2}),
+           ("unexpected_value", "V", {"EXPECT_ERRS": "134", "EXPECT_SET": 0}), ("unexpected_delim", ")NV", {"EXPECT_ERRS": "135", "EXPECT_SET": 1}),
+           ("unexpected_term", "SNV", {"EXPECT_ERRS": "124", "EXPECT_SET": 1}), ("eof_in_frame", "HNV", {"EXPECT_ERRS": "126", "EXPECT_SET": 1}),
+           ("nested_frame", "HHNVSS", {"EXPECT_ERRS": "123,124", "EXPECT_SET": 1}), ("frame_not_allowed", "HNVS", {"EXPECT_ERRS": "122", "MAXFRAMEDEPTH": 0, "EXPECT_SET": 1}),
+           ("null_loop", "LV", {"EXPECT_ERRS": "37,134"}), ("empty_loop", "LN", {"EXPECT_ERRS": "36", "EXPECT_ADDP": 0}),
+           ("partial_packet", "LNNV", {"EXPECT_ERRS": "53", "EXPECT_ADDP": 1}), ("dup_item", "NVNV", {"EXPECT_ERRS": "41", "DUP_AT": 2, "EXPECT_SET": 1}),
+           ("dup_loop_name", "LNNVV", {"EXPECT_ERRS": "41", "DUP_AT": 2, "EXPECT_ADDP": 1})]
+
+
+def script_sites(sc):
+    """(kind, pos) of every handler callback site of a well-formed script (mirrors the geometry functions of h15_prod.c)."""
+    E_CSTART, E_CEND, E_ITEM, E_LSTART, E_LEND, E_PSTART, E_PEND = 0, 1, 4, 5, 6, 7, 8
+    n = len(sc); sites = [(E_CSTART, -1)]
+    isval = lambda c: c in "VQT"
+    i = 0
+    while i < n:
+        c = sc[i]
+        if c == "N" and i + 1 < n and isval(sc[i + 1]):
+            sites.append((E_ITEM, i + 1)); i += 2; continue
+        if c == "L":
+            b = i + 1
+            while b < n and sc[b] == "N":
+                b += 1
+            nc = b - (i + 1); t = b
+            while t < n and isval(sc[t]):
+                t += 1
+            sites.append((E_LSTART, b))
+            j = b
+            while j + nc <= t:
+                sites.append((E_PSTART, j)); sites += [(E_ITEM, j + q) for q in range(nc)]; sites.append((E_PEND, j + nc - 1)); j += nc
+            sites.append((E_LEND, t)); i = t; continue
+        if c == "H":
+            sites.append((E_CSTART, i))
+        if c == "S":
+            sites.append((E_CEND, i))
+        i += 1
+    sites.append((E_CEND, n))
+    return sites
+
+
+def c15(tier):
+    qs = []
+    scripts = WELLFORMED if tier == "quick" else WELLFORMED + ["NVNVNV", "LNVVV", "LNNVVVVVV", "HNVLNVVSNV", "LNVVLNVV", "HSHNVS", "NVLNVVNV"]
+    answers = {"skipcur": -1, "skipsib": -2, "end": -3, "err7": 7}
+    for sc in scripts:
+        for so in (0, 1):
+            qs.append(prod_query("C15_prod_%s_allcont_so%d" % (sc, so), sc, {"DEV_KIND": 99, "DEV_POS": 0, "DEV_ANS": 0, "SYNTAX_ONLY": so}, "all handlers continue", tier))
+        for (k, p) in script_sites(sc):
+            for an, av in answers.items():
+                if tier == "quick" and an == "err7" and k not in (4, 7):
+                    continue
+                qs.append(prod_query("C15_prod_%s_k%d_p%d_%s" % (sc, k, p, an), sc, {"DEV_KIND": k, "DEV_POS": p, "DEV_ANS": "(%d)" % av, "SYNTAX_ONLY": 0},
+                                     "one handler deviates at callback site (kind %d, token %d) with %s" % (k, p, an), tier))
+    for sc in (["NVNV", "LNVV"] if tier == "quick" else ["NVNV", "LNVV", "HNVSNV"]):
+        for d0 in (1, 2):
+            qs.append(prod_query("C15_prod_%s_skip%d" % (sc, d0), sc, {"ENTRY_SKIP": d0, "DEV_KIND": 99, "DEV_POS": 0, "DEV_ANS": 0, "SYNTAX_ONLY": 0}, "productions entered while skipping", tier))
+    # item-only scripts keep a fully symbolic handler program (they finish)
+    for sc in ("NV", "NVNV"):
+        qs.append(prod_query("C15_prod_%s_symbolic" % sc, sc, {}, "symbolic handler program (every assignment of answers to callback sites)", tier))
+    return qs
+
+
+def prod_defect_queries(tier, prefix):
+    out = []
+    for (nm, sc, ex) in DEFECTS:
+        for so in (0, 1):
+            d = dict(ex); d.update({"DEV_KIND": 99, "DEV_POS": 0, "DEV_ANS": 0, "SYNTAX_ONLY": so})
+            if so and "DUP_AT" in d:
+                continue     # duplicate detection needs the store
+            out.append(prod_query("%s_defect_%s_so%d" % (prefix, nm, so), sc, d, "grammatical defect class: code and recovery", tier))
+    return out
+
+
+META["C15"] = {"files": ["parser.c"], "functions": ["parse_container", "parse_item", "parse_loop", "parse_loop_header", "parse_loop_packets"],
+               "stubs": ["next_token = contract stub over a concrete token script", "parse_value = contract stub", "storage API = recording store", "real value.c / map.c / packet.c"],
+               "assumptions": ["token scripts concrete per instance (enumerated)", "values are scalars at this level (lists / tables are parse_value's business)",
+                               "SKIP_SIBLINGS suppresses ALL later children of the same parent in document order"],
+               "outside": ["parse_cif's block loop", "interplay with the real scanner beyond the token seam", "composition over whole documents (argued)"]}
+
+
 def c12(tier):
     qs = scan_queries(tier) + tok_queries(tier)
     for q in qs:
         q.name = "C12_" + q.name
-    return qs
+    return qs + prod_defect_queries(tier, "C12")
 
 
 def c03(tier):
@@ -563,7 +660,7 @@ META["C01"] = {"files": ["parser.c"], "functions": ["next_token", "scan_ws", "sc
                "assumptions": ["one token per query; composition over a document is by the token / production contracts (argued)", "CIF_LINE_LENGTH shrunk by hook"],
                "outside": ["byte -> UChar decoding", "tokens longer than the bound", "characters the reference tokenizer leaves unspecified get generic assertions only"]}
 
-REG = {"C01": c01, "C03": c03, "C12": c12, "C04": c04, "C11": c11, "C16": c16, "C05": c05, "C06": c06, "C17": c17, "C20": c20, "C10": c10, "C18": c18, "C09": c09, "C08": c08, "C14": c14, "C19": c19, "C07": c07}
+REG = {"C01": c01, "C03": c03, "C12": c12, "C15": c15, "C04": c04, "C11": c11, "C16": c16, "C05": c05, "C06": c06, "C17": c17, "C20": c20, "C10": c10, "C18": c18, "C09": c09, "C08": c08, "C14": c14, "C19": c19, "C07": c07}
 
 
 def for_property(pid, tier):
@@ -711,3 +808,14 @@ MANI["C03"] = {
             "fill step from an arbitrary state (C08).",
     "note": "per-unit: termination and totality of a whole parse follow from the units only by the composition argument; byte decoding "
             "/ malformed UTF-8 (ICU), parse options plumbing beyond C11, and the consistency of the target CIF afterwards beyond C05 are outside"}
+
+MANI["C15"] = {
+    "text": "Bounded model checking of the real productions parse_container / parse_item / parse_loop / parse_loop_header / "
+            "parse_loop_packets over enumerated token scripts (items, loops with 1-2 columns, a save frame) with a contract stub of the "
+            "scanner, a recording store and real packet / value objects: callbacks in document order, everything reported once and stored "
+            "when all handlers continue, nothing reported or stored for entities bypassed by SKIP_CURRENT / SKIP_SIBLINGS at any callback "
+            "site, END / positive results stop and propagate, skip depth restored, syntax-only mode makes the same callbacks.",
+    "note": "handler programs: fully symbolic for item-only scripts; for scripts with loops / frames every single deviation from "
+            "'all continue' (site x answer) is enumerated (a symbolic program makes the packet heap symbolic and symex does not finish); "
+            "parse_cif's block loop, lists / tables inside values, and the real scanner are outside this seam; composition over a "
+            "document is by the production contracts (argued)"}
